@@ -147,6 +147,20 @@ PROPS = {
         "assumptions": ["data races are only visible to the -race tier inside one scheduler step (the scheduler's own hand-off creates happens-before edges between steps): the data-race clause is covered partially",
                         "decision points exist only at rewritten lock operations and file calls"],
     },
+    "C12": {
+        "level": "exploration", "quick": 400, "thorough": 30000, "batch": 1, "single_timeout": 150,
+        "rule": ("a graph over 5 vector nodes (incoming, outgoing, inverse and self edges) is built and synced; then 1-2 deleter tasks (VDelete of "
+                 "1-3 nodes), a linker task creating further edges (also to nodes being deleted), optional snapshot/compaction/flush noise and an "
+                 "optional Close at a random point run under the cooperative scheduler: the cascade goroutine of every delete is an internal task "
+                 "whose unlinks (locks + journal writes) are decision points, so client links land between its steps and Close cancels it half-way; "
+                 "crash images are taken at random file-system events of the scheduled phase (p in {0,.05,.15}, <=6). Oracle, evaluated live once "
+                 "every task has drained (cascade settled), after Close+Open, and after recovering every image: for each node whose vector is gone, "
+                 "VGetLinks / VGetIncoming / VGetRelations / VGetIncomingRelations / VExtractSubgraph / FindPath / VGetConnections show no edge incident "
+                 "to it unless a link of that very triple completed after the delete was invoked. Non-trivial: >=1 acknowledged delete and >5 grants; "
+                 "distinct = task programs + initial graph + grant-sequence hash."),
+        "real_vs_stub": REAL + "; goroutine choice at every lock/IO decision point is the simulator's",
+        "assumptions": ["VGetConnections repairs dead links as a side effect (documented), it is called last and the run is settled again afterwards"],
+    },
 }
 
 
@@ -156,6 +170,12 @@ NOT_APPLICABLE["C20"] = ("pure functions of their input (text analysis, chunking
                          "no schedule, fault or interleaving for a simulator to decide; property-based testing territory, see DESIGN.md section 7")
 
 MANIFEST_TEXT = {
+    "C12": {
+        "text": "Seeded search over schedules and crash points of the delete cascade: the cascade goroutine is a scheduled task, client links interleave with its unlinks, Close cancels it at arbitrary steps and crash images are taken at file-system events; all graph views are checked for edges incident to deleted nodes live (settled), after restart and after crash recovery.",
+        "design_ref": "DESIGN.md section 6 C12",
+        "note": "Schedules and crash points are sampled. An edge to a deleted node is excused only when a link of the same triple did not complete before the delete was invoked.",
+        "technique": "deterministic simulation: cooperative scheduler over the cascade goroutine + Close injection + disk-event crash images, dangling-edge oracle over all graph views",
+    },
     "C13": {
         "text": "Seeded search over schedules of mixed client, admin, subscriber and Close tasks under the cooperative scheduler, with a stall detector (deadlock), process-death detection (panic/fatal/SIGSEGV), per-item counting oracles (reinforcements, metadata merges), a linearizability check of the KV history (porcupine) and clean-failure-after-Close; a quarter of the seeds are repeated in the -race build.",
         "design_ref": "DESIGN.md section 6 C13, section 2.3",
